@@ -11,7 +11,21 @@ if "--tier" in args:
     i = args.index("--tier")
     tier = args[i + 1]
     del args[i : i + 2]
-name, ids = args[0], args[1:] or [args[0].split("-")[0]]
+seed = None
+if "--seed" in args:
+    i = args.index("--seed")
+    seed = args[i + 1]
+    del args[i : i + 2]
+name = args[0]
+ids = args[1:]
+if not ids:
+    # default: the checks that reported it before (or the property's own check)
+    try:
+        prev = json.load(open(os.path.join(HERE, "seeded", name, "meta.json"))).get("checks", {})
+        ids = sorted({k.split(":")[0] for k, v in prev.items() if v.get("exit") == 1 and v.get("violations", 0) > 0})
+    except OSError:
+        ids = []
+    ids = ids or [name.split("-")[0]]
 dest = os.path.join(HERE, "seeded", name)
 d = tempfile.mkdtemp(prefix="seedrun-")
 try:
@@ -23,10 +37,10 @@ try:
     meta = json.load(open(dest + "/meta.json"))
     for c in ids:
         t0 = time.time()
-        r = subprocess.run([os.path.join(HERE, "bin/check"), c, "--tier", tier], capture_output=True, text=True, env=dict(os.environ, VERIF_REPO=d + "/r"))
+        r = subprocess.run([os.path.join(HERE, "bin/check"), c, "--tier", tier], capture_output=True, text=True, env=dict(os.environ, VERIF_REPO=d + "/r", **({"VERIF_SEED": seed} if seed else {})))
         v = [l for l in r.stdout.splitlines() if l.startswith("VIOLATION")]
         res = {"exit": r.returncode, "violations": len(v), "first": (v[0].split("#", 1)[-1].strip()[:160] if v else ""), "wall_s": round(time.time() - t0, 1)}
-        meta.setdefault("checks", {})[f"{c}:{tier}"] = res
+        meta.setdefault("checks", {})[f"{c}:{tier}" + (f":seed{seed}" if seed else "")] = res
         print(name, c, tier, res)
     json.dump(meta, open(dest + "/meta.json", "w"), indent=1)
 finally:
